@@ -24,7 +24,8 @@ CHECKS = {
                 "and that from_sequence_and_distance merges zero-distance "
                 "objects into their representative (removal of entry and "
                 "column, index map, re-examination, symmetric rows)."
-                " The reduced distance rows reach the constructor unchanged or through a float conversion; an integer conversion (truncation before ranking) is a finding.",
+                " The reduced distance rows reach the constructor unchanged or through a float conversion; an integer conversion (truncation before ranking) is a finding."
+                " Every array cell that reaches a row of OrderingSpace.to_str is x[representative index from instance.tags] (D20.7).",
         "design_ref": "DESIGN.md section 4, C20 and 10.2",
         "note": "Does NOT decide the integrality multiplier for half ranks "
                 "(neutral for the clauses above) nor the tag bookkeeping. "
@@ -88,7 +89,8 @@ CHECKS = {
                 "limit is consumed."
                 " D7.6: both scratch tables have an integer type covering -1 .. days-1 (a type taken from an attribute is looked up where it is assigned)."
                 " Errors.evaluate hands the plan, every instance limit and both scratch tables to the kernel parameter of the same name."
-                " The declared upper bound equals / dominates the bound derived from the reference step and no closed-form witness plan family exceeds it for settings the Instance constructor accepts.",
+                " The declared upper bound equals / dominates the bound derived from the reference step and no closed-form witness plan family exceeds it for settings the Instance constructor accepts."
+                " The TTP Instance constructor stores every limit parameter in the field of its own name (sibling rule over the check_int_range lines).",
         "design_ref": "DESIGN.md section 4, C07 and 10.2",
         "note": "By induction over the scan the returned value is the "
                 "documented per-rule count, hence 0 exactly for plans that "
@@ -222,7 +224,8 @@ CHECKS = {
                 "repository produces); every range accepted by "
                 "Instance.__new__ is accepted by from_compact_str."
                 " Optional CSV cells must test presence (`k in d`, `is not None`), not the truthiness of the value (a legitimate 0 would be written as empty)."
-                " Every CSV cell is parsed with a converter that gives back the kind of number the record constructor declares for the field.",
+                " Every CSV cell is parsed with a converter that gives back the kind of number the record constructor declares for the field."
+                " A row loop over a mapping of the record itself is not the writer's (sorted) key list that the titles follow.",
         "design_ref": "DESIGN.md section 4, C19",
         "note": "Does NOT decide equality of values / derived attributes "
                 "after a round trip (runtime conversion). Relies on the "
@@ -246,7 +249,8 @@ CHECKS = {
                 "evaluate / lower_bound / upper_bound under that "
                 "objective's name."
                 " Whatever Hardness.evaluate keeps in self between evaluations depends on the evaluated instance only through its name (the memo key)."
-                " Positional constructor arguments of the result record are bound through the constructor's signature.",
+                " Positional constructor arguments of the result record are bound through the constructor's signature."
+                " Packing.from_log hands the given instance to the parser, which keeps it in the field the PackingSpace is built from (D12.7).",
         "design_ref": "DESIGN.md section 4, C12",
         "note": "Does NOT decide run behaviour: termination within budget, "
                 "feasibility of final solutions, logged value = "
@@ -347,7 +351,8 @@ CHECKS = {
                 "(decoders) are checked to store bin ids inside the range "
                 "the consumers (objective kernels) rely on; a kernel "
                 "without contract or an unreached site is reported."
-                " The cache of generated network kernels is keyed injectively by all dimensions (shared obligation with C16 D16.9).",
+                " The cache of generated network kernels is keyed injectively by all dimensions (shared obligation with C16 D16.9)."
+                " Every call site of run_ode / multi_run_ode binds controller_dim to the control width of the simulated controller (the default 1 would under-size the control arrays).",
         "design_ref": "DESIGN.md section 4, C13",
         "note": "Decides D13.1-D13.3. Lemmas assumed and named in the "
                 "evidence: L1 (first item fits the empty first bin, backed "
@@ -493,7 +498,8 @@ CHECKS = {
                 "compared values - exhaustive up to order-isomorphism of "
                 "packings; loop completeness and from_str->validate "
                 "must-pass-through are decided on the CFG."
-                " Membership tests in displays / tuples are read as equalities; a clause whose only guard cannot be normalised ends undecided, not as a violation.",
+                " Membership tests in displays / tuples are read as equalities; a clause whose only guard cannot be normalised ends undecided, not as a violation."
+                " from_str parses all values of the text (no count bound), so that the reshape is the size check.",
         "design_ref": "DESIGN.md section 4, C04",
         "note": "Decides D4.1, D4.1L, D4.1T, D4.2. Not decided: value-level "
                 "equality of the text round trip (numpy conversion); extra "
